@@ -80,6 +80,7 @@ func TestCheck(t *testing.T) {
 		report.Scenario{Name: "admission/create", Body: func(r *explore.Run) { createBody(r, rep) }},
 		report.Scenario{Name: "admission/update", Body: func(r *explore.Run) { updateBody(r, rep) }},
 		report.Scenario{Name: "reconcile", Body: func(r *explore.Run) { reconcileBody(r, rep) }},
+		report.Scenario{Name: "recreate", Body: func(r *explore.Run) { recreateBody(r, rep) }},
 	)
 	// Interleave so that round-robin dealing balances shards.
 	sort.SliceStable(list, func(i, j int) bool { return report.Hash(list[i].Name) < report.Hash(list[j].Name) })
